@@ -34,6 +34,8 @@ pub struct SInterp<'c, K: KeyT> {
     next_fresh: u32,
     pub labels: u32,
     pub out: Outcome,
+    /// a destructor panicked: elements / blocks may legitimately be leaked
+    leak_ok: bool,
 }
 
 fn plan_h(case: &Case, prefix: &str) -> Plan {
@@ -66,6 +68,7 @@ where
             next_fresh: 0,
             labels: 0,
             out: Outcome::default(),
+            leak_ok: false,
         }
     }
 
@@ -610,6 +613,22 @@ where
                     bad!("C07", "clone-differs", "{what}: cloned iterator yields {:?}, original {:?}", rest2, rest1);
                 }
             }
+            3 => {
+                // a third by next(), then the specialised fold for the rest
+                for _ in 0..truth_len / 3 + 1 {
+                    match it.next() {
+                        Some(k) => out.push(k.id()),
+                        None => break,
+                    }
+                }
+                check(&it, out.len())?;
+                let rest = it.fold(Vec::new(), |mut acc, k| {
+                    k.check(what);
+                    acc.push(k.id());
+                    acc
+                });
+                out.extend(rest);
+            }
             _ => {
                 while let Some(k) = it.next() {
                     k.check(what);
@@ -785,7 +804,7 @@ where
             }
         }
         let st = alloc::stats();
-        if st.n_live != blocks {
+        if st.n_live != blocks && !self.leak_ok {
             bad!("C03", "block-accounting", "ledger holds {} blocks, sets own {blocks}", st.n_live);
         }
         alloc::check_zones(false);
@@ -800,10 +819,15 @@ where
     }
 
     pub fn step(&mut self, step: usize, op: &Op) -> Result<(), Violation> {
+        if self.case.header.get("fault_step").copied() == Some(step as u64) {
+            return self.faulted_step(step, op);
+        }
         alloc::begin_op();
         let before = Self::dump_of(&self.slots[self.cur].set);
         world::clear_panic_messages();
+        let counts0 = world::counts();
         let r = catch_unwind(AssertUnwindSafe(|| self.exec(op)));
+        let counts1 = world::counts();
         match r {
             Err(payload) => {
                 let msg = world::last_panic_message().unwrap_or_else(|| "<no message>".into());
@@ -818,7 +842,140 @@ where
         }
         let after = Self::dump_of(&self.slots[self.cur].set);
         let clear_like = matches!(op.code, ops::CLEAR | ops::DRAIN | ops::SWAP | ops::CLONE | ops::REBUILD | ops::ITER | ops::ASSIGN);
-        self.labels |= dump::transition_labels(&before, &after, clear_like);
+        let tl = dump::transition_labels(&before, &after, clear_like);
+        self.labels |= tl;
+        if self.case.h("trace") != 0 {
+            let mut d = [0u64; world::NCLASS];
+            for i in 0..world::NCLASS {
+                d[i] = counts1[i] - counts0[i];
+            }
+            self.out.per_step.push((tl, d));
+        }
+        Ok(())
+    }
+
+    /// C04 on the HashSet API: the k-th invocation of a callback class panics during this step.
+    /// Oracle as for maps: both sets valid, len() == yielded == found, no foreign element, every
+    /// element that left a set was dropped, no block leaked, and a hasher panic while a
+    /// single-element operation grows the table leaves the contents unchanged.
+    pub fn faulted_step(&mut self, step: usize, op: &Op) -> Result<(), Violation> {
+        let class = Class::from_usize(self.case.h("fault_class") as usize).unwrap_or(Class::Hash);
+        let k = self.case.h("fault_k");
+        let snap = |s: &Set<K>| -> Vec<(u32, u32, Option<u64>)> {
+            let _q = Quiet::new();
+            let mut v: Vec<(u32, u32, Option<u64>)> = s.iter().map(|e| (e.id(), e.gen(), e.serial())).collect();
+            v.sort_unstable();
+            v
+        };
+        let pre: Vec<Vec<(u32, u32, Option<u64>)>> = self.slots.iter().map(|s| snap(&s.set)).collect();
+        let pre_dump = Self::dump_of(&self.slots[self.cur].set);
+        let cur_before = self.cur;
+        let serials_before = world::n_serials();
+        let stats_before = alloc::stats();
+        alloc::begin_op();
+        world::clear_panic_messages();
+        if k > 0 {
+            world::arm_fault(class, k);
+        }
+        let r = catch_unwind(AssertUnwindSafe(|| self.exec(op)));
+        let fired = world::disarm_fault();
+        let relabel = |v: Violation| Violation { property: "C04", kind: format!("after-panic:{}", v.kind), ..v };
+        match r {
+            Ok(Ok(())) => {
+                return self.check_state().map_err(|b| {
+                    let v = self.to_violation(step, b);
+                    if fired { relabel(v) } else { v }
+                });
+            }
+            Ok(Err(b)) => {
+                let v = self.to_violation(step, b);
+                return Err(if fired { relabel(v) } else { v });
+            }
+            Err(payload) => {
+                let injected = payload.downcast_ref::<Injected>().is_some();
+                drop(payload);
+                if !injected {
+                    let msg = world::last_panic_message().unwrap_or_else(|| "<no message>".into());
+                    return Err(Violation { property: if fired { "C04" } else { "C02" }, kind: "unexpected-panic".into(), step, detail: format!("HashSet operation panicked with a foreign payload (fault fired: {fired}): {msg}") });
+                }
+            }
+        }
+        self.out.count("faults_fired", 1);
+        self.labels |= dump::L_FAULT_UNWOUND;
+        let st = alloc::stats();
+        let grew = st.n_alloc > stats_before.n_alloc;
+        if grew {
+            self.labels |= dump::L_FAULT_GROWTH;
+        }
+        if class == Class::Hash && !grew && pre_dump.n_deleted() > 0 && pre_dump.growth_left == 0 {
+            self.labels |= dump::L_FAULT_REHASH;
+        }
+        if class != Class::Hash {
+            self.labels |= dump::L_FAULT_OTHER;
+        }
+        if class.is_drop() {
+            self.leak_ok = true;
+        }
+        let _q = Quiet::new();
+        let mk = |kind: &str, detail: String| Violation { property: "C04", kind: kind.to_string(), step, detail };
+        if let Some(v) = world::take_violation() {
+            return Err(relabel(v));
+        }
+        let single_growth = matches!(op.code, ops::INSERT | ops::REPLACE | ops::GET_OR_INSERT | ops::GET_OR_INSERT_WITH | ops::ENTRY | ops::RESERVE | ops::SHRINK_TO_FIT);
+        let mut expected_blocks = 0;
+        let now_all: Vec<Vec<(u32, u32, Option<u64>)>> = self.slots.iter().map(|s| snap(&s.set)).collect();
+        for si in 0..self.slots.len() {
+            let s = &mut self.slots[si];
+            let d = Self::dump_of(&s.set);
+            if let Err(b) = d.validate(true) {
+                return Err(mk(&format!("after-panic:{}", b.1), format!("HashSet, class {:?} k {k}: {}", class, b.2)));
+            }
+            if !d.is_singleton {
+                expected_blocks += 1;
+            }
+            let now = &now_all[si];
+            if now.len() != s.set.len() {
+                return Err(mk("after-panic:len-vs-iter", format!("len() {} but iter() yields {}", s.set.len(), now.len())));
+            }
+            for e in now {
+                match s.set.get(&KeyRef(e.0)) {
+                    Some(kk) if kk.gen() == e.1 => kk.check("post-panic element"),
+                    _ => return Err(mk("after-panic:yielded-element-not-found", format!("iter() yields element {} (gen {}) that get() does not find", e.0, e.1))),
+                }
+            }
+            if K::TRACKED {
+                for e in now {
+                    let known = pre.iter().any(|p| p.iter().any(|b| b.2 == e.2)) || e.2.map_or(false, |x| x >= serials_before);
+                    if !known {
+                        return Err(mk("after-panic:foreign-element", format!("element ({}, gen {}) is neither pre-existing nor handed in by this operation", e.0, e.1)));
+                    }
+                }
+            }
+            if class == Class::Hash && grew && si == cur_before && single_growth && *now != pre[si] {
+                return Err(mk("hash-panic-during-growth-changed-contents", format!("{} elements before, {} after a hasher panic while growing into a new allocation", pre[si].len(), now.len())));
+            }
+            s.model = now.iter().map(|e| (e.0, e.1)).collect();
+            s.plan = s.set.hasher().plan;
+        }
+        if K::TRACKED && !class.is_drop() {
+            for p in &pre {
+                for b in p {
+                    if let Some(ser) = b.2 {
+                        let still = now_all.iter().any(|n| n.iter().any(|e| e.2 == Some(ser)));
+                        if !still && world::elem_state(ser) == Some(world::ElemState::Live) {
+                            return Err(mk("after-panic:element-lost-not-dropped", format!("element {} (gen {}, serial {ser}) left its set but was never dropped", b.0, b.1)));
+                        }
+                    }
+                }
+            }
+        }
+        if !class.is_drop() && st.n_live != expected_blocks {
+            return Err(mk("after-panic:block-leaked", format!("ledger holds {} blocks, the sets own {expected_blocks} (class {:?})", st.n_live, class)));
+        }
+        alloc::check_zones(false);
+        if let Some(v) = world::take_violation() {
+            return Err(relabel(v));
+        }
         Ok(())
     }
 
@@ -838,6 +995,9 @@ where
             return (out, Some(v));
         }
         let st = alloc::stats();
+        if self.leak_ok {
+            return (out, None);
+        }
         if st.n_live != 0 {
             return (out, Some(Violation { property: "C03", kind: "block-leaked".into(), step, detail: format!("{} blocks still allocated after the sets were dropped", st.n_live) }));
         }
